@@ -13,11 +13,11 @@ CHECKS = {
  "C22": dict(tech="def-use provenance of formatted string arguments to a CR/LF sanitiser; sanitiser semantics checked on MIR constants and guards; write provenance in the connection loop",
              text="Decides that string data reaches a CRLF-terminated frame only through a function that removes both CR and LF, other variants are numeric or length-prefixed, and the server writes only encoder output. Sufficient for the one-frame clause under the stated trusted base.", ref="§5 C22"),
  "C33": dict(tech="expression extraction from MIR + exhaustive evaluation over the ordering table; receiver-chain provenance of counted collections",
-             text="Decides that both quorum operands count one set of voter ids (distinctness by construction), that the threshold expression equals 2*active > voters on the full table 0<=active<=voters<=8 whatever its spelling, and that healthy is its conjunction with the leader test. Together with the counting lemma (stated, not re-proved) this is the statement for health_status.", ref="§5 C33"),
+             text="Decides that both quorum operands count one set of voter ids (distinctness by construction), that the threshold expression equals 2*active > voters on the full table 0<=active<=voters<=8 whatever its spelling, that healthy is its conjunction with the leader test, and that removing a member removes every configuration entry naming its id. Together with the counting lemma (stated, not re-proved) this is the statement for health_status.", ref="§5 C33"),
  "C31": dict(tech="dominance of removal over insertion in coroutine MIR; closure-predicate extraction and evaluation over index orderings {i-1,i,i+1}; branch-sensitive field-read placement",
              text="Decides the three clauses structurally for every history: append removes entries >= the new index before every push; snapshot compaction keeps exactly entries > the recorded snapshot index; last index/term falls back to the snapshot only for an empty log.", ref="§5 C31"),
  "C03": dict(tech="identity-flow (def-use) of the cache key and cached value; normaliser verified against delimiter/whitespace sets read from cypher.pest; call-graph purity of parse_query",
-             text="Decides jointly sufficient conditions on every path of cached_parse: key identity up to a whitespace normaliser that provably acts only outside string/comment-bearing queries and only on grammar whitespace; stored value = parse of the same string; hit returns its clone; parse is pure.", ref="§5 C03"),
+             text="Decides jointly sufficient conditions on every path of cached_parse: key identity up to a whitespace normaliser that provably acts only outside string/comment-bearing queries and only on grammar whitespace; stored value = parse of the same string; hit returns its clone; parse is pure; the key is not edited in place after normalisation.", ref="§5 C03"),
  "C24": dict(tech="control-dependence of the accepting return on a classifier call over the same string; classifier body checked to return only false or !plan(parse(stmt)).is_write; derived mutating-operator set (what next_mut can reach) vs the is_write of every ExecutionPlan literal rooted in such an operator (forward taint + per-path flag fixpoint)",
              text="Decides, for every path of text_to_cypher, that a statement is handed back only when plan(parse(stmt)).is_write is false (parse/plan failure rejects), and that every plan whose root is built from an operator able to reach a store/index mutator is marked is_write on the path that builds it. Sufficient for the property up to the operators' own effects (C04).", ref="§5 C24"),
  "C23": dict(tech="data-dependence of the routing branch on an engine classifier (not text predicates); dominance of the is_write refusal in the read executor; CHA call-graph unreachability of index-manager mutators from the read path; planner marks every plan rooted in a mutating operator (shared with C24)",
@@ -35,7 +35,7 @@ CHECKS = {
  "C19": dict(tech="call-graph reachability matrix (front end x mutation kind) to persistence functions with a storage effect; boot path reachability",
              text="Decides a necessary condition per cell: without a path from the endpoint's write branch to a persistence call with a storage effect, an acknowledged write of that kind cannot survive a restart. Ten cells fail today (known findings). Also decides that every entity value of the result rows reaches its persist call and that a failed persist call is never acknowledged.", ref="§5 C19"),
  "C32": dict(tech="HIR match-arm facts (variant -> callee sets) for the state machine, shared must-pass storage-effect rule (C16), CHA reachability for nondeterminism sources, must-pass in RaftNode::write",
-             text="Decides the wiring of each replicated request kind to its own persistence function with a storage effect, error surfacing, determinism of apply (no RNG/env/clock outside entity timestamps), apply-before-acknowledge, and (shared with C16) that an update merges with the update winning and nothing is acknowledged unlogged.", ref="§5 C32"),
+             text="Decides the wiring of each replicated request kind to its own persistence function with a storage effect, error surfacing, determinism of apply (no RNG/env/clock outside entity timestamps), apply-before-acknowledge, that a refused creation is refused before anything is written (shared with C18), and (shared with C16) that an update merges with the update winning and nothing is acknowledged unlogged.", ref="§5 C32"),
  "C06": dict(tech="transitive field write/read effects over the call graph (mutator kind table), representation-completeness of deleting mutators vs creators/compaction, raw-handle bypass inventory; closure-predicate analysis of adjacency removals (by relationship id), dominance of endpoint liveness tests over adjacency writes, per-function field-read coherence of tier pairs",
              text="Decides which representations of an edge/node each mutator maintains: a deleting mutator that recycles ids must cover every representation creators and compaction write (three known findings: the frozen CSR tier), counts read only maintained data, creators are complete, labels of stored nodes change only through index-maintaining methods, adjacency entries are removed by relationship id only, every creator tests both endpoints, read views read whole (frozen, buffer) pairs of one direction, finish_bulk_load rebuilds unconditionally, and a failed mutator has not handed an id back to the allocator.", ref="§5 C06"),
  "C07": dict(tech="copy-on-write guard rule on functions taking last_mut of a version chain; generic-instantiation match for flatten over Vec<Vec<Node>>; chain-emptying callee class in delete_node; reachability of last_mut from the older-version side avoiding the clone push; write-effect pairing and base-image provenance for the relationship version log",
@@ -52,8 +52,8 @@ CHECKS = {
              text="Decides that each way a node gives up a constrained value releases it, that the check precedes the writes, that each way a node starts to hold one (SET, label add) checks and registers it, that a null write releases, that a constraint is registered before its backfill, that a refused write leaves index and node untouched (validate-then-mutate), and that write operators do not swallow the violation.", ref="§5 C11"),
  "C28": dict(tech="T-PAIR staleness matrix over edge/property mutators, field-effect check of the stale fallback, accessor inventory of planner-side users",
              text="Decides completeness of staleness marking and measure propagation over the mutator table that no skip of a measure write depends on the value written, and that rewrites see only usable entries. Encodings and roll-up arithmetic are not decided.", ref="§5 C28"),
- "C29": dict(tech="T-PAIR matrix on the vector index, field-read effect of the declared metric, sibling liveness-validation rule between index-consuming operators",
-             text="Decides which mutators keep the vector index current (none remove: five known findings), whether the declared metric is used at all (known finding) and that the consumer validates hits (fixed). Ranking and recall are not decided.", ref="§5 C29"),
+ "C29": dict(tech="T-PAIR matrix on the vector index, field-read effect of the declared metric, sibling liveness-validation rule between index-consuming operators; provenance of the vector argument at every indexing site; constant inventory of the cosine guard",
+             text="Decides which mutators keep the vector index current (none remove: five known findings), whether the declared metric is used at all (known finding) that the consumer validates hits (fixed), that every indexing site converts property values through to_vector (both representations), and that the cosine guard compares norms with zero only (scale invariance). Ranking values and recall are not decided.", ref="§5 C29"),
  "C01": dict(tech="branch-local callee classification in the multi-label scan, planner site rules (labels passed, residual kept), HIR arm sibling comparison of the six evaluator copies with a frozen, condition-checked exception table; representation-invariant rule for flag-selected accumulators (sum)",
              text="Decides three structural clauses of read semantics: conjunctive multi-label scan (known finding: pinned by an existing test), index scans keep all labels and a residual, evaluator siblings agree, and sum() folds its integer total when it switches to float. The rest of openCypher semantics is not decided.", ref="§5 C01"),
  "C04": dict(tech="dominance / branch rules in DeleteOperator and MergeOperator MIR, use-def check for discarded store Results with an automatically recognised rollback-on-error idiom, field-read inventory for row-map-only decisions; content taint (no scalar pass-through) from input property maps to returned maps; barrier-drain CFG rule",
@@ -62,14 +62,14 @@ CHECKS = {
              text="Decides the necessary condition for statement atomicity — some compensation on every error exit after the first pull — which fails today (known finding); that each store call and each schema statement on its own is all-or-nothing (no error exit after a mutation point), that a failing row leaves no half-built node (8 known findings), that WITH drains before emitting, and that failures are not swallowed.", ref="§5 C05"),
  "C25": dict(tech="consumer classification of every numeric parse Result in the parser (including call sites of the generic parse helper), cast sinks on parsed numbers; panic-site inventory justified by grammar facts read from cypher.pest; dominance of the nesting-depth guard over the recursive parse",
              text="Decides the numeric clause: every numeral/bound parse is surfaced as an error, never unwrapped, defaulted or dropped, and parsed numbers are not narrowed. The no-panic clause is decided as: every panic-capable site over pest pairs is justified by a grammar fact or a reviewed entry, and nesting depth is bounded before the recursive parser runs.", ref="§5 C25"),
- "C35": dict(tech="HIR arm facts for every match on Expression::Parameter and for substitute_expr (variant coverage, recursion into Expression-typed children from ADT facts), order of substitution vs planning",
-             text="Decides the only ways a parameterised run could silently differ: a defaulting evaluation arm, inexact/non-recursive substitution, planning before substitution, a substitution skipped on anything but empty parameter maps, an ORDER BY position or the clause pipeline the substitution does not visit, or an evaluation error dropped outside the reviewed sort-key sites.", ref="§5 C35"),
+ "C35": dict(tech="HIR arm facts for every match on Expression::Parameter and for substitute_expr (variant coverage, recursion into Expression-typed children from ADT facts), order of substitution vs planning; must-pass of the Query field reads in substitute_params; provenance of the row-lookup key in the Parameter arms",
+             text="Decides the only ways a parameterised run could silently differ: a defaulting evaluation arm, inexact/non-recursive substitution, planning before substitution, a substitution skipped on anything but empty parameter maps, a parameter looked up under its bare name (a row variable), an ORDER-BY-bearing field of Query or the clause pipeline that the substitution does not visit on every path, or an evaluation error dropped (unwrap_or / Err(_) arm / wildcard arm) outside the reviewed sort-key sites.", ref="§5 C35"),
  "C12": dict(tech="HIR arm facts of the two codec functions (tag literals, constructed variants), identity-op classification of the String arm, def-use of the label argument to create_node*, serde-struct constant flow for record kinds; shared C06/C07 rules",
              text="Decides agreement of the writer's and reader's tag tables and record kinds, identity decoding of strings, no invented label, one version per exported node, imported labels indexed, both property tiers merged into every node record, an id set that cannot drop ids (length evaluated against max/64), a record for every iterated item, and no record field written as a constant. Value-level round trip (non-finite floats, __type-keyed maps) is not decided.", ref="§5 C12"),
  "C13": dict(tech="def-use coverage of every store-mutating call in the import against the rollback's record (created_nodes), transitive write effects to find the mutators, reviewed neutral-effect exception",
              text="Decides which mutations of a failing import are outside the rollback's reach (eight known findings: merges into existing nodes, edges between pre-existing nodes, hierarchy declarations), and that a read error of the snapshot stream always fails the import.", ref="§5 C13"),
- "C34": dict(tech="CHA call-graph unreachability of unseeded randomness and rayon reductions from every solve() inside the crate, sibling bound-repair rule, guarded-sampling rule (dominating lower<upper comparison over the Range's own operands)",
-             text="Decides seed-determinism prerequisites (including: no read of the thread count), bound repair in every solver, and that no bounds-derived half-open range is sampled unguarded (fixed). History monotonicity, dominance and fitness consistency are not decided.", ref="§5 C34"),
+ "C34": dict(tech="CHA call-graph unreachability of unseeded randomness and rayon reductions from every solve() inside the crate, sibling bound-repair rule, guarded-sampling rule (dominating lower<upper comparison over the Range's own operands); ordering-domain reachability of the firefly move mark on the equal-fitness outcome; per-solver history classification (loop-carried holder / greedy member writes / elitism) over MIR; must-pass of a redefinition between a placeholder fitness write and the result",
+             text="Decides seed-determinism prerequisites (including: no read of the thread count), bound repair in every solver, and that no bounds-derived half-open range is sampled unguarded (fixed), the history clause for all 25 single-objective solvers (running-minimum holder, greedy population writes, or a reviewed elitism mechanism; Firefly: a tie never moves a firefly), and that a placeholder fitness cannot reach the result (fixed: GWO with zero iterations). Dominance in multi-objective fronts and fitness consistency beyond the placeholder rule are not decided.", ref="§5 C34"),
  "C36": dict(tech="aggregate/arm tables of the three rio wrapper files compared per format and across formats",
              text="Weak: decides the wrappers' term/literal variant tables, writer vs reader, and that lexical values / the formatter output cross the wrappers unchanged. Escaping of string content inside rio_* is not decided.", ref="§5 C36"),
 }
